@@ -483,6 +483,17 @@ func (f *Frame) lanes1(v ssa.Value, w int) Vec {
 		return a.Resize(w, ssigned)
 	case *ssa.ChangeType:
 		return f.Lanes(x.X)
+	case *ssa.Index:
+		// element of a byte-array VALUE (an array parameter of an inlined helper,
+		// or a whole-array load of a tracked buffer)
+		if idx, ok := constBig(x.Index); ok && idx.IsInt64() && w == 8 {
+			if n, isArr := byteArrayLenOfValue(x.X.Type()); isArr && idx.Int64() >= 0 && int(idx.Int64()) < n {
+				if bytesOf, ok := f.arrayBytes(x.X, 0); ok {
+					return bytesOf(int(idx.Int64()))
+				}
+			}
+		}
+		f.A.why("%s: element of an array value that is not a copy of a tracked buffer", f.A.Expr(x))
 	case *ssa.Phi:
 		var out Vec
 		for _, e := range x.Edges {
